@@ -506,9 +506,11 @@ func (x *Exec) applyContract(c *Contract, fn *types.Func, recv *Value, args []*V
 	}
 	sc.results = results
 	for _, e := range c.Ensures {
+		if e.Local {
+			continue
+		}
 		x.assume(st, x.evalSpecBool(e, sc, st))
 	}
-	x.assumeHeapWF(st)
 	return results
 }
 
